@@ -60,6 +60,10 @@ pub enum PatchIndexError {
     #[error("I/O error: {0}")]
     Io(#[from] std::io::Error),
 
+    /// Declared key size does not fit the 16-byte key fields
+    #[error("invalid key size: {0} (maximum is 16)")]
+    InvalidKeySize(u8),
+
     /// Entry data does not fit block size
     #[error(
         "block type {block_type}: entry data overflows block (entries need {needed}, block has {available})"
